@@ -290,7 +290,7 @@ Lemma unarmed_init c rands sleeps : unarmed c (init_state c rands sleeps) = (len
 Proof. unfold unarmed, init_state. cbn [rearmed_v]. apply slack_zeros. Qed.
 
 Lemma run_ok fixed c script rands sleeps :
-  c_read c && negb (c_val c) = false -> loop_ok fixed c (init_state c rands sleeps) (run_gen fixed c script rands sleeps).
+  validation_refuses c = false -> loop_ok fixed c (init_state c rands sleeps) (run_gen fixed c script rands sleeps).
 Proof. intros V. unfold run_gen. rewrite V. apply loop_bo. Qed.
 
 Lemma spent_explicit c T E : spent c T E ->
@@ -302,11 +302,12 @@ Proof.
 Qed.
 
 Lemma run_error fixed c script rands sleeps evs : run_gen fixed c script rands sleeps = (evs, RError) ->
-  (c_read c = true /\ c_val c = false) \/
+  (c_read c = true /\ c_val c = false /\ c_store_tp c <> TpTiDB) \/
   (0 < c_max_sleep c /\ (c_max_sleep c <= tot evs - exc evs \/ (excl_limit <= exc evs /\ c_max_sleep c <= exc evs))).
 Proof.
-  intros H. destruct (c_read c && negb (c_val c)) eqn:V.
-  - left. apply andb_prop in V as [V1 V2]. apply negb_true_iff in V2. auto.
+  intros H. destruct (validation_refuses c) eqn:V.
+  - left. unfold validation_refuses in V. apply andb_prop in V as [V V3]. apply andb_prop in V as [V1 V2].
+    apply negb_true_iff in V2. apply negb_true_iff in V3. repeat split; auto. intros E; rewrite E in V3; discriminate.
   - right. pose proof (run_ok fixed c script rands sleeps V) as (_ & L & _). rewrite H in L. cbn [fst snd] in L.
     specialize (L eq_refl). apply spent_explicit in L. exact L.
 Qed.
@@ -315,7 +316,7 @@ Lemma run_backoffs fixed c script rands sleeps : 0 < c_max_sleep c ->
   2 * n_plain (fst (run_gen fixed c script rands sleeps)) <= c_max_sleep c + 1 /\
   1000 * n_excl (fst (run_gen fixed c script rands sleeps)) <= N.max excl_limit (c_max_sleep c) + 999.
 Proof.
-  intros M. destruct (c_read c && negb (c_val c)) eqn:V.
+  intros M. destruct (validation_refuses c) eqn:V.
   - unfold run_gen. rewrite V. cbn. lia.
   - pose proof (run_ok fixed c script rands sleeps V) as (L & _ & _). cbn [init_state bo_total bo_excl] in L.
     pose proof (bo_ok_plain c _ M 0 0 ltac:(lia) L). pose proof (bo_ok_excl c _ M 0 0 L). lia.
@@ -324,7 +325,7 @@ Qed.
 Lemma run_rearms_fixed c script rands sleeps :
   (n_rearms (fst (run_gen true c script rands sleeps)) <= length (c_reps c) * (length (c_reps c) - 1))%nat.
 Proof.
-  destruct (c_read c && negb (c_val c)) eqn:V.
+  destruct (validation_refuses c) eqn:V.
   - unfold run_gen. rewrite V. cbn. lia.
   - pose proof (run_ok true c script rands sleeps V) as (_ & _ & L). rewrite unarmed_init in L. auto.
 Qed.
